@@ -131,7 +131,9 @@ def domains(scratch=None):
                # dict subclasses that answer for missing keys (__missing__)
                collections.Counter({"x": 1}), collections.defaultdict(int, {"x": 2}),
                # keys of ONE type that still do not order among themselves
-               {(1, "a"): 0, (1, 2): 0, "x": 1}],
+               {(1, "a"): 0, (1, 2): 0, "x": 1},
+               # keys that sort, but only partially (frozensets order by inclusion)
+               {frozenset({1}): 0, frozenset({2}): 0}],
         OBJ: [Obj(a=1, b=2), Obj(a=1, b=1), Obj(a=0, b=2)],
         EXC: [_exc_info(ValueError("a")), _exc_info(KeyError("b")), _exc_info(KeyboardInterrupt())],
         CALL: [_ret1, _raise_value, _raise_key, _warn_dep, _warn_two, _warn_twice_same_line, _raise_kbi, _raise_abort],
@@ -226,6 +228,8 @@ def leaves(scratch=None):
     add(LIST, "SameMembers([1, 1])", lambda: M.SameMembers([1, 1]), lambda v: sorted(v) == [1, 1])
     # same length, same distinct members, different repetitions: (1, 2, 2) must not match
     add(LIST, "SameMembers([1, 1, 2])", lambda: M.SameMembers([1, 1, 2]), lambda v: sorted(v) == [1, 1, 2])
+    # ("two iterators", says the docstring)
+    add(LIST, "SameMembers(iter([2, 1]))", lambda: M.SameMembers(iter([2, 1])), lambda v: sorted(v) == [1, 2])
     add(LIST, "Contains(1)", lambda: M.Contains(1), lambda v: 1 in v)
     add(LIST, "ContainsAll([1, 2])", lambda: M.ContainsAll([1, 2]), lambda v: 1 in v and 2 in v)
     add(LIST, "HasLength(2)", lambda: M.HasLength(2), lambda v: len(v) == 2)
@@ -235,6 +239,8 @@ def leaves(scratch=None):
     # dicts
     add(DICT, "KeysEqual('x')", lambda: M.KeysEqual("x"), lambda v: set(v) == {"x"})
     add(DICT, "KeysEqual({'x':0,'y':0})", lambda: M.KeysEqual({"x": 0, "y": 0}), lambda v: set(v) == {"x", "y"})
+    add(DICT, "KeysEqual('x','x')", lambda: M.KeysEqual("x", "x"), lambda v: set(v) == {"x"})
+    add(DICT, "KeysEqual({fs2:0,fs1:0})", lambda: M.KeysEqual({frozenset({2}): 0, frozenset({1}): 0}), lambda v: set(v) == {frozenset({1}), frozenset({2})})
     add(DICT, "Equals({})", lambda: M.Equals({}), lambda v: v == {})
     add(DICT, "HasLength(1)", lambda: M.HasLength(1), lambda v: len(v) == 1)
     # objects
